@@ -53,7 +53,7 @@ def gen_c04(rep, tier, seed):
     out = []
     for c in _tlc("MCRedirect", "MCRedirect_q", rep):
         ln = c04.render(c, random.Random(stable_hash(json.dumps(c, sort_keys=True)) ^ seed))
-        out.append({"text": ln, "files": {"f1": "old\n"}, "origin": "C04",
+        out.append({"text": ln, "files": {"f1": "old\n", "f1b": "old2\n"}, "origin": "C04",
                     "feat": {"kind": c["kind"], "pos": c["pos"], "ops": [r["k"] for r in c["rs"]]}})
     return out
 
